@@ -4,10 +4,10 @@ import PydraModel.Hash.LemmasEnc
 Specification side of C07 / C08:
 
   * `Equiv v w`      same type and content: identities (`id`) ignored, set elements and dict items up to permutation;
-  * `sortable v`     (decidable) on the keys of every dict and on the attribute names of every object Python's `<` answers
-                     and is a strict total order (no two equal) — what `sorted(mapping)` needs to be a function of the
-                     key set.  Sets need nothing since fix 847ae56e (elements ordered by their digests).  Its negation is
-                     the match rule of finding D68 (dict keys of mutually unorderable classes: TypeError);
+  * `sortable v`     (decidable) WELL-FORMEDNESS only: the keys of every dict and the attribute names of every object are
+                     pairwise different and carry genuine float patterns — true of every Python value.  Nothing is
+                     required about comparability: sets are ordered by the digests of their elements (fix 847ae56e) and
+                     mapping keys by their byte representations (fix e8ebe74c);
   * `inG0 v`         (decidable) the grammar of the discrimination theorem.
 -/
 namespace PydraModel.Hash
@@ -34,37 +34,22 @@ theorem scalarLt_of_answers {a b : Scalar} (h : answersS a b = true) : scalarLt 
   | error e => rw [hs] at h; cases h
   | ok r => cases r <;> rfl
 
-/-- decidable: `<` answers on all pairs of `ks` and is a strict total order on `ks`; no duplicates -/
-def keysOK (ks : List Scalar) : Bool :=
-  ks.all (fun a => ks.all (fun b => answersS a b))
-  && ks.all (fun a => ks.all (fun b => !ltbS a b || !ltbS b a))
-  && ks.all (fun a => ks.all (fun b => ks.all (fun c => !ltbS a b || !ltbS b c || ltbS a c)))
-  && ks.all (fun a => ks.all (fun b => a == b || ltbS a b || ltbS b a))
-  && decide ks.Nodup
+/-- order of the keys in `bytes_repr_mapping_contents`: by the bytes of their representation -/
+def ltbK (a b : Scalar) : Bool := bytesLt (encScalar a) (encScalar b)
 
-theorem keysOK_spec {ks : List Scalar} (h : keysOK ks = true) :
-    AgreeOn scalarLt ltbS ks ∧ TotalOn ltbS ks ∧ ks.Nodup := by
+/-- decidable well-formedness of the keys of a dict / the attribute names of an object: pairwise different (they are the
+    keys of ONE Python dict) and genuine float patterns.  Nothing is required about their comparability any more (fix e8ebe74c). -/
+def keysOK (ks : List Scalar) : Bool := decide ks.Nodup && ks.all (fun k => decide k.WF)
+
+theorem keysOK_spec {ks : List Scalar} (h : keysOK ks = true) : TotalOn ltbK ks ∧ ks.Nodup := by
   unfold keysOK at h
-  simp only [Bool.and_eq_true, List.all_eq_true, Bool.or_eq_true, Bool.not_eq_true', decide_eq_true_eq,
-    beq_iff_eq] at h
-  obtain ⟨⟨⟨⟨h1, h2⟩, h3⟩, h4⟩, h5⟩ := h
-  refine ⟨?_, ⟨?_, ?_, ?_⟩, h5⟩
-  · intro a ha b hb
-    exact scalarLt_of_answers (h1 a ha b hb)
-  · intro a ha b hb hab
-    rcases h2 a ha b hb with h | h
-    · rw [hab] at h; cases h
-    · exact h
-  · intro a ha b hb c hc hab hbc
-    rcases h3 a ha b hb c hc with (h | h) | h
-    · rw [hab] at h; cases h
-    · rw [hbc] at h; cases h
-    · exact h
+  simp only [Bool.and_eq_true, decide_eq_true_eq, List.all_eq_true] at h
+  obtain ⟨hn, hw⟩ := h
+  refine ⟨⟨?_, ?_, ?_⟩, hn⟩
+  · intro a _ b _ hab; exact bytesLt_asym _ _ hab
+  · intro a _ b _ c _ hab hbc; exact bytesLt_trans _ _ _ hab hbc
   · intro a ha b hb hne
-    rcases h4 a ha b hb with (h | h) | h
-    · exact absurd h hne
-    · left; exact h
-    · right; exact h
+    exact bytesLt_total _ _ (fun he => hne (encScalar_inj (hw a ha) (hw b hb) he))
 
 /-! ### same type and content -/
 
@@ -109,8 +94,8 @@ end
 notation:50 v " ≃ₚ " w => Equiv v w
 
 mutual
-/-- decidable hypothesis of the order-independence theorems: only dict keys / attribute names are still compared with `<`
-    (its negation: finding D68) -/
+/-- decidable well-formedness hypothesis of the order-independence theorems: dict keys / attribute names are pairwise
+    different (no comparability requirement is left) -/
 def sortable : PyVal → Bool
   | .sc _ => true
   | .path _ _ => true
